@@ -1076,10 +1076,16 @@ package p9p
 //@ func (*encoder).encode
 //@ inline
 //@ recursion 16
+// loop 2: `for _, m := range v` of the []string case (v#2: the type-switch binding, after the range variable v)
+//@ loop 2 invariant 0 <= $done && $done <= len(v#3)
+//@ loop 2 invariant out(e.wr) == bcat(entry(out(e.wr)), namesUpto(v#3, $done))
 
 //@ func size9p
 //@ inline
 //@ recursion 16
+// loop 2: `for _, sv := range v` of the []string case
+//@ loop 2 invariant 0 <= $done && $done <= len(v#3)
+//@ loop 2 invariant entry(s#1) + blen(namesUpto(v#3, len(v#3))) < 4294967296 ==> s#1 == entry(s#1) + blen(namesUpto(v#3, $done))
 
 //@ func (*decoder).decode
 //@ inline
@@ -1087,8 +1093,8 @@ package p9p
 
 //@ func (codec9p).Marshal
 //@ property C01
-//@ use wirekind wiredef bytes noassoc
-//@ foreach MessageTversion MessageRversion MessageTauth MessageRauth MessageTattach MessageRattach MessageRerror MessageTflush MessageRflush MessageTopen MessageRopen MessageTcreate MessageRcreate MessageTread MessageRread MessageTwrite MessageRwrite MessageTclunk MessageRclunk MessageTremove MessageRremove MessageTstat MessageRstat MessageTwstat MessageRwstat
+//@ use wirekind wiredef bytes noassoc assoc_r
+//@ foreach MessageTversion MessageRversion MessageTauth MessageRauth MessageTattach MessageRattach MessageRerror MessageTflush MessageRflush MessageTopen MessageRopen MessageTcreate MessageRcreate MessageTread MessageRread MessageTwrite MessageRwrite MessageTclunk MessageRclunk MessageTremove MessageRremove MessageTstat MessageRstat MessageTwstat MessageRwstat MessageTwalk
 //@ dyn v : *Fcall
 //@ dyn v.Message : $K
 //@ let F = (*v.(*Fcall))
@@ -1097,8 +1103,8 @@ package p9p
 
 //@ func (codec9p).Size
 //@ property C01
-//@ use wirekind wiredef bytes noassoc
-//@ foreach MessageTversion MessageRversion MessageTauth MessageRauth MessageTattach MessageRattach MessageRerror MessageTflush MessageRflush MessageTopen MessageRopen MessageTcreate MessageRcreate MessageTread MessageRread MessageTwrite MessageRwrite MessageTclunk MessageRclunk MessageTremove MessageRremove MessageTstat MessageRstat MessageTwstat MessageRwstat
+//@ use wirekind wiredef wiremono bytes noassoc assoc_r
+//@ foreach MessageTversion MessageRversion MessageTauth MessageRauth MessageTattach MessageRattach MessageRerror MessageTflush MessageRflush MessageTopen MessageRopen MessageTcreate MessageRcreate MessageTread MessageRread MessageTwrite MessageRwrite MessageTclunk MessageRclunk MessageTremove MessageRremove MessageTstat MessageRstat MessageTwstat MessageRwstat MessageTwalk
 //@ dyn v : *Fcall
 //@ dyn v.Message : $K
 //@ let F = (*v.(*Fcall))
@@ -1152,3 +1158,134 @@ package p9p
 //@ ensures roundtrip_Twstat_MUID: typeis(f.Message, MessageTwstat) ==> V.Message.(MessageTwstat).Stat.MUID == f.Message.(MessageTwstat).Stat.MUID
 //@ ensures roundtrip_Twrite: typeis(f.Message, MessageTwrite) ==> typeis(V.Message, MessageTwrite) && V.Message.(MessageTwrite).Fid == f.Message.(MessageTwrite).Fid && V.Message.(MessageTwrite).Offset == f.Message.(MessageTwrite).Offset && bytes(V.Message.(MessageTwrite).Data) == old(bytes(f.Message.(MessageTwrite).Data))
 //@ ensures roundtrip_Rread: typeis(f.Message, MessageRread) ==> typeis(V.Message, MessageRread) && bytes(V.Message.(MessageRread).Data) == old(bytes(f.Message.(MessageRread).Data))
+
+// The type byte of each message kind (intro(5)): the Type methods, the decoder's table and newFcall agree with the manual.
+//@ func (MessageTversion).Type
+//@ property C01
+//@ ensures manual_code: result == 100
+
+//@ func (MessageRversion).Type
+//@ property C01
+//@ ensures manual_code: result == 101
+
+//@ func (MessageTauth).Type
+//@ property C01
+//@ ensures manual_code: result == 102
+
+//@ func (MessageRauth).Type
+//@ property C01
+//@ ensures manual_code: result == 103
+
+//@ func (MessageTattach).Type
+//@ property C01
+//@ ensures manual_code: result == 104
+
+//@ func (MessageRattach).Type
+//@ property C01
+//@ ensures manual_code: result == 105
+
+//@ func (MessageRerror).Type
+//@ property C01
+//@ ensures manual_code: result == 107
+
+//@ func (MessageTflush).Type
+//@ property C01
+//@ ensures manual_code: result == 108
+
+//@ func (MessageRflush).Type
+//@ property C01
+//@ ensures manual_code: result == 109
+
+//@ func (MessageTwalk).Type
+//@ property C01
+//@ ensures manual_code: result == 110
+
+//@ func (MessageRwalk).Type
+//@ property C01
+//@ ensures manual_code: result == 111
+
+//@ func (MessageTopen).Type
+//@ property C01
+//@ ensures manual_code: result == 112
+
+//@ func (MessageRopen).Type
+//@ property C01
+//@ ensures manual_code: result == 113
+
+//@ func (MessageTcreate).Type
+//@ property C01
+//@ ensures manual_code: result == 114
+
+//@ func (MessageRcreate).Type
+//@ property C01
+//@ ensures manual_code: result == 115
+
+//@ func (MessageTread).Type
+//@ property C01
+//@ ensures manual_code: result == 116
+
+//@ func (MessageRread).Type
+//@ property C01
+//@ ensures manual_code: result == 117
+
+//@ func (MessageTwrite).Type
+//@ property C01
+//@ ensures manual_code: result == 118
+
+//@ func (MessageRwrite).Type
+//@ property C01
+//@ ensures manual_code: result == 119
+
+//@ func (MessageTclunk).Type
+//@ property C01
+//@ ensures manual_code: result == 120
+
+//@ func (MessageRclunk).Type
+//@ property C01
+//@ ensures manual_code: result == 121
+
+//@ func (MessageTremove).Type
+//@ property C01
+//@ ensures manual_code: result == 122
+
+//@ func (MessageRremove).Type
+//@ property C01
+//@ ensures manual_code: result == 123
+
+//@ func (MessageTstat).Type
+//@ property C01
+//@ ensures manual_code: result == 124
+
+//@ func (MessageRstat).Type
+//@ property C01
+//@ ensures manual_code: result == 125
+
+//@ func (MessageTwstat).Type
+//@ property C01
+//@ ensures manual_code: result == 126
+
+//@ func (MessageRwstat).Type
+//@ property C01
+//@ ensures manual_code: result == 127
+
+//@ func newMessage
+//@ property C01 C04
+//@ use wirekind
+//@ ensures table: err == nil ==> kindOf(result0) == typ
+//@ ensures unknown_rejected: err != nil <==> !(100 <= typ && typ <= 127 && typ != 106)
+//@ ensures rejected_nil: err != nil ==> result0 == nil
+
+//@ func newFcall
+//@ property C01
+//@ requires msg != nil
+//@ ensures result != nil && result.Type == kindOf(msg) && result.Tag == tag && result.Message == msg
+
+// Induction on the prefix length: longer prefixes of a name list encode to at least as many bytes.
+//@ func lemmaNamesMono
+//@ property C01
+//@ use wiredef bytes
+//@ axiomatize [wiremono] names_mono {namesUpto(s, n), namesUpto(s, m)}
+//@ modifies nothing
+//@ requires 0 <= n && n <= m && m <= len(s)
+//@ ensures blen(namesUpto(s, n)) <= blen(namesUpto(s, m))
+//@ loop 1 invariant n <= i && i <= m && blen(namesUpto(s, n)) <= blen(namesUpto(s, i))
